@@ -8,7 +8,7 @@ CONSTANTS
   ScopeOn = FALSE  FieldOn = FALSE  MethodFlags = {1, 10}  StmtKinds = {"call1", "call2", "nest", "if"}  MaxStmts = 2
   Widths = {}
   ChainItems = 0
-  Excluded = {"D1", "D1b", "D2", "D2c", "D3", "D5", "D7", "D8", "D9", "D10", "D11", "D12", "D13", "D14", "D15"}
+  Excluded = {"D1", "D1b", "D2", "D2c", "D3", "D5", "D6", "D7", "D8", "D9", "D10", "D11", "D12", "D13", "D14", "D15", "D16"}
   Emit = FALSE  Bug = "ArgcFromSyncBits"
 INIT Init
 NEXT Next
